@@ -33,7 +33,8 @@ LEVEL_TEXT = ("Machine-checked: (1) compile_encodes_partial: for every well-form
               "order (13 axes); predicates_spec_partial / predicates_literal_spec: the predicate loop and the numeric-literal "
               "shortcut equal XPath 2.4 filtering; recycle_contract: every memoised conversion of a recyclable XObject is reset "
               "unconditionally on the factory's recycle path; nodeset_builders_ordered: id() and every other node-set building "
-              "function fill their result with ordered, duplicate-rejecting inserts (tables regenerated from the source). The models are tied to the working tree by two translators and by replaying "
+              "function fill their result with ordered, duplicate-rejecting inserts; parent_walks_use_xpath_parent: no upward walk "
+              "of the function library uses the DOM parent accessor (tables regenerated from the source). The models are tied to the working tree by two translators and by replaying "
               "generated expressions, token soups, comparisons and evaluations on generated documents on the real library and on "
               "the compiled model; every implementation reply is also compared with the denotational specification evalS.")
 LEVEL_NOTE = ("Trusted: Lean kernel; axioms propext/Classical.choice/Quot.sound only; the hand transcription of the anchored C++ "
@@ -70,6 +71,7 @@ THEOREMS = [
     "XalanModel.Props.C02.axes_spec_partial",
     "XalanModel.Props.C02.recycle_contract",
     "XalanModel.Props.C02.nodeset_builders_ordered",
+    "XalanModel.Props.C02.parent_walks_use_xpath_parent",
 ]
 
 CORPUS_EXPR = [
@@ -128,6 +130,7 @@ def run(ctx):
     ctx.translate("c02_flags")
     ctx.translate("c02_recycle")
     ctx.translate("c02_nodeset_builders")
+    ctx.translate("c02_parent_walks")
     ctx.lean("XalanModel.Props.C02", THEOREMS, extra_targets=["xm_c02"])
     model = ctx.exe("xm_c02")
     harness = common.build_harness("c02_xpath", ["c02_xpath.cpp"], flavor="hooks")
@@ -416,6 +419,12 @@ def compare_stream(ctx, r, harness, model, work):
 # evaluation: location paths over all axes, predicates, unions, functions, arithmetic
 
 EVAL_CORPUS = [
+    "normalize-space('p\tq')", "normalize-space('p\nq')", "normalize-space('p\rq')", "normalize-space('p q')", "normalize-space('p\u00a0q')",
+    "normalize-space(' p\tq ')", "normalize-space('p\t\tq')", "string-length(normalize-space('\t'))", "normalize-space(concat('a', '\n', 'b'))",
+    "count(//@*[lang('en')])", "//@*[lang('en')]", "//@*[lang('de')]", "//text()[lang('en')]", "//comment()[lang('en')]",
+    "//processing-instruction()[lang('en')]", "count(//@*[name() = local-name()])", "//@*[string-length() > 1]",
+    "number('\t12\n')", "number('\u00a012')", "contains('a\tb', '\t')", "translate('a\tb\nc', '\t\n', '  ')",
+    "substring-before('p\tq', '\t')", "substring-after('p\rq', '\r')", "starts-with('\np', '\n')", "string-length('\t\n\r ')",
     "id('i1')", "id('i3 i1')", "id('i2 i2')", "count(id('i1 i1 zz'))", "string(id('i3 i1'))", "name(id('i3  i2'))", "id(//@k)",
     "id(//text())", "count(id(//@k | //text()))", "id(id('i2'))", "id(1)", "id('')", "count(id('i3 i2 i1 i3'))", "id('i2 i1')/@k",
     "string(id('i4 i2'))", "local-name(id(concat('i3', ' ', 'i1')))", "count(set:distinct(id('i2 i1 i2')))",
@@ -490,33 +499,12 @@ FIXED_ID_DOC = build_doc(("r", [], [("a", [("k", "i1")], ["i3 i1"]), ("b", [("k"
 
 
 def classify_eval(text, iv, mv, sv, xml=""):
-    """None, or (key, what) when the implementation's value differs from the specification's"""
+    """None, or (key, what) when the implementation's value differs from the specification's.
+    (The classes of the defects that were fixed upstream are gone: a recurrence is an unlisted `eval.wrong`.)"""
     if iv == sv:
         return None
-    if mv == sv and "substring-after(" in text and iv != "err":
-        return ("eval.wrong-type[substring-after-empty-pattern]: %s" % text,
-                "value %s, the specification gives %s (FunctionSubstringAfter returns its first argument object unconverted when "
-                "the second string is empty, so the result - or an enclosing comparison - sees a node-set / boolean / number)" % (iv, sv))
-    if mv == sv and "substring(" in text and (re.search(r"\d{10,}", text + xml) or "vbig" in text) and iv != "err":
-        return ("eval.substring[huge-position]: %s" % text,
-                "value %s, XPath 4.2 gives %s (a start / length beyond the range of size_type is converted before it is compared "
-                "with the string length)" % (iv, sv))
     if iv == "err" and sv != "err":
-        cls = "root-before-union" if re.search(r"(^|[(\[|,])\s*/\s*\|", text) else "other"
-        return ("eval.rejects[%s]: %s" % (cls, text), "expression rejected / failed (specification value %s)" % sv)
-    if re.search(r"(@|attribute::)\s*node\(\)", text):
-        return ("eval.attribute-node-test[namespace-declaration]: %s" % text,
-                "value %s, the specification gives %s (attribute::node() also selects xmlns declarations, incl. the implicit xmlns:xml)" % (iv, sv))
-    if iv == mv and re.search(r"\bmod\b", text):
-        return ("eval.arith[mod]: %s" % text, "value %s, IEEE remainder (XPath 3.5) gives %s" % (iv, sv))
-    if iv == mv and re.search(r"\bdiv\b", text) and not g.uses_multi_position_pred(text):
-        return ("eval.arith[div]: %s" % text, "value %s, IEEE division gives %s" % (iv, sv))
-    if mv == sv and "lang(" in text:
-        return ("eval.lang[not-nearest]: %s" % text,
-                "value %s, XPath 4.3 gives %s (FunctionLang keeps climbing past a non-matching nearest xml:lang)" % (iv, sv))
-    if mv == sv and re.search(r"substring\(", text) and re.search(r"-\s*\(?\s*1\s*\)?\s+div\s+\(?\s*0", text):
-        return ("eval.substring[negative-infinity-start]: %s" % text,
-                "value %s, XPath 4.2 gives %s (FunctionSubstring treats a start of -Infinity like NaN: empty string)" % (iv, sv))
+        return ("eval.rejects: %s" % text, "expression rejected / failed (specification value %s)" % sv)
     if iv == mv and g.uses_multi_position_pred(text):
         return ("eval.stale-position[multi-predicate]: %s" % text,
                 "value %s, XPath 2.4 gives %s (position() answered from the cache of the previous predicate)" % (iv, sv))
@@ -545,6 +533,7 @@ def eval_stream(ctx, r, harness, model, work):
     nsess, nexpr, depth = (60, 60, 2) if not ctx.thorough else (1200, 100, 3)
     npos = 30 if not ctx.thorough else 60
     nrecycle = 40 if not ctx.thorough else 80
+    nkind, nws = (25, 30) if not ctx.thorough else (50, 60)
     lines = []
     meta = []
     sess_starts = []
@@ -567,6 +556,10 @@ def eval_stream(ctx, r, harness, model, work):
                 ec.append((t, 1, None, xml, table))
         for _ in range(npos):
             ec.append((g.g_positional_expr(r), r.below(len(table)), None, xml, table))
+        for _ in range(nkind):
+            ec.append((g.g_context_kind_expr(r), r.below(len(table)), None, xml, table))
+        for _ in range(nws):
+            ec.append((g.g_whitespace_expr(r), r.below(len(table)), None, xml, table))
         for _ in range(nexpr):
             term = g.g_top(r, r.range(1, depth))
             text = g.rnd(term)
@@ -625,11 +618,7 @@ def eval_stream(ctx, r, harness, model, work):
             ctx.fail(key, bad[1] + " [doc %s, context node %d]" % (xml, c),
                      {"lines": eval_session_lines(xml, table, [(stext, c)]), "session_lines": history + [lines[i]],
                       "doc": xml, "context": c, "expr": stext})
-        if iv_c != mv and not (bad and (bad[0].startswith("eval.rejects[root-before-union]") or bad[0].startswith("eval.attribute-node-test")
-                                        or bad[0].startswith("eval.substring[negative-infinity-start]")
-                                        or bad[0].startswith("eval.lang[not-nearest]")
-                                        or bad[0].startswith("eval.wrong-type[substring-after-empty-pattern]")
-                                        or bad[0].startswith("eval.substring[huge-position]"))):
+        if iv_c != mv:
             disagree.append({"doc": xml, "context": c, "expr": text, "impl": iv, "model": mv, "spec": sv})
     ctx.extra["eval_impl_errors"] = nerr
     ctx.oblige("correspondence: XPath::execute (type, value, node ids in delivered order) = Lean model evaluator on every "
